@@ -552,7 +552,7 @@ class C38(Prop):
                 return "import_state_from_vtu: keys given as a single string"
             for dd in res["dims"]:
                 if dd["sd"] and dd["dim"] == 3 and len(dd["ids"]) > 1 and (
-                        "cannot be read back" in why or "dimension 3" in why):
+                        "cannot be read back" in why):
                     return KNOWN_POLY3D
             return "import_state_from_vtu: interleaved cell types across subdomains of one dimension"
         if case["kind"] == "e2e":
